@@ -286,7 +286,9 @@ def validate_scalar(value: Any, dtype: DataType) -> Any:
             )
         return None
 
-    vtype = type(value)
+    # The value's kind, by the rule inference and promotion use (isinstance-based:
+    # an instance of a subclass of int/float/str/date counts as that kind)
+    vtype = infer_kind(value)
 
     # Exact match
     if vtype is dtype.kind:
